@@ -84,10 +84,8 @@ def filterTrace : List Row → List Row → List Row
   | [], _ => []
   | _ :: _, [] => []
   | i :: is, f :: fs =>
-    let di := i.coords
-    let df := f.coords.take di.length
-    if di = df then i :: filterTrace is fs
-    else if lexLt di df then filterTrace is (f :: fs)
+    if i.coords = f.coords.take i.coords.length then i :: filterTrace is fs
+    else if lexLt i.coords (f.coords.take i.coords.length) then filterTrace is (f :: fs)
     else filterTrace (i :: is) fs
 termination_by a b => a.length + b.length
 
